@@ -431,7 +431,7 @@ def main(tier, seed):
     rep.samples = [dict(size=m[1], policy=m[2], ops=m[3][:12]) for m in metas[:3]]
     rep.extra["oracle_violations"] = nviol
     rep.assumptions = ["costs are non-NaN floats (rank-encoded to Z by an order isomorphism)",
-                       "Heap.dad's float division is exact (i < 2^53)",
+                       "Heap.dad: int((i-1)/2) on binary64 equals the model's natural-number division for every i <= 2^53 (Props/C05_binary64.v: C05_binary64_dad_exact; first wrong parent at i = 2^53+4: C05_binary64_dad_limit); identifying CPython's int/int true division with the division of the two exactly converted floats is the remaining modelling step",
                        "element ids are < size (otherwise the Python code raises IndexError)"]
     return rep.finish()
 
